@@ -1,0 +1,63 @@
+//go:build verif
+
+// Contracts for the bmverif deductive checker (comment-only; compiled only under -tags verif).
+// Property C09, the part contracts can decide: every instruction's simulation step writes only state owned by
+// the VM it is given and reads only that VM and its (immutable) machine description. With disjoint footprints,
+// steps of different processors and of different simulations commute; the scheduler and the barrier are not modelled.
+
+package procbuilder
+
+//@ props C09
+
+//@ func (vm *VM) AddDeferredInstruction(diName string, di DeferredInstruction) error
+//@   assigns vm.DeferredInstructions[*]
+//@   reads vm.DeferredInstructions, vm.DeferredInstructions[*]
+//@   frameonly
+
+//@ interface Opcode method Simulate(vm *VM, instr string) error
+//@   requires vm != nil && vm.Mach != nil
+//@   assigns vm.*, vm.Registers[*], vm.Memory[*], vm.Inputs[*], vm.Outputs[*], vm.InputsValid[*], vm.OutputsValid[*],
+//@           vm.InputsRecv[*], vm.OutputsRecv[*], vm.Extra_states[*], vm.DeferredInstructions[*]
+//@   reads vm.*, vm.Registers[*], vm.Memory[*], vm.Inputs[*], vm.Outputs[*], vm.InputsValid[*], vm.OutputsValid[*],
+//@         vm.InputsRecv[*], vm.OutputsRecv[*], vm.Extra_states[*], vm.DeferredInstructions[*],
+//@         vm.Mach.*, vm.Mach.Op[*], vm.Mach.Modes[*], vm.Mach.Slocs[*], vm.Mach.Vars[*]
+//@   frameonly
+
+// bit reinterpretation helpers (unsafe.Pointer casts of a local copy) and fixed-point arithmetic: assumed to be
+// functions of their arguments only
+//@ func Int8bits(f int8) uint8
+//@   trusted
+//@   pure
+//@ func Int16bits(f int16) uint16
+//@   trusted
+//@   pure
+//@ func Int32bits(f int32) uint32
+//@   trusted
+//@   pure
+//@ func Int64bits(f int64) uint64
+//@   trusted
+//@   pure
+//@ func Int8FromBits(f uint8) int8
+//@   trusted
+//@   pure
+//@ func Int16FromBits(f uint16) int16
+//@   trusted
+//@   pure
+//@ func Int32FromBits(f uint32) int32
+//@   trusted
+//@   pure
+//@ func Int64FromBits(f uint64) int64
+//@   trusted
+//@   pure
+//@ func fxpMult(a int64, b int64, regSize int, fracBits int) int64
+//@   trusted
+//@   pure
+//@ func fxpDiv(a int64, b int64, regSize int, fracBits int) int64
+//@   trusted
+//@   pure
+//@ func fpMult(a int64, b int64, regSize int, fracBits int) int64
+//@   trusted
+//@   pure
+//@ func fpDiv(a int64, b int64, regSize int, fracBits int) int64
+//@   trusted
+//@   pure
